@@ -271,7 +271,7 @@ func TestC06(t *testing.T) {
 		"(ii) the full product piece-length{absent,0,1,16384,2^31,2^32-1,2^32,-1,string,2^32+16384} x pieces-length{0,19,20,40} x (single length{absent,-1,0,1,pl,pl+1,2^63-1,2pl} | " +
 		"files lists of 1..3 entries, lengths{-pl,-1,0,1,pl,2^62,2^63-1,pl+1,pl+2}, every padding mask" +
 		map[bool]string{true: "", false: "; quick tier: 3-entry lists only for piece-length{1,16384,2^32-1} x pieces-length{20,40}"}[thorough] + "), plus one-dimensional deviations from accepted bases (path shapes, wrong types, " +
-		"duplicate keys, every key permutation, name variants, extra keys, malformed keys, truncations at every byte), list and dict nesting of depth {1,10,10^3,10^5" + map[bool]string{true: ",10^6", false: ""}[thorough] + "} at 11 positions " +
+		"duplicate keys, every key permutation, name variants, extra keys, malformed keys, truncations at every byte), list and dict nesting of depth " + map[bool]string{true: "{1,10,10^3,10^5,10^6}", false: "{1,10,10^3,10^4}"}[thorough] + " at 11 positions " +
 		"(terminated and not), strings declaring {exact,+1,2^31-1,2^24,2^31,-1,...} bytes with a short body at 9 positions; every case through metainfo.New, Session.parseMetaInfo, " +
 		"metainfo.NewInfo x 4 flag pairs, Session.parseInfo v1..v3, a real Session's resume loader (v1..v3) and AddTorrent(Stopped) under tight limits; every distinct accepted geometry " +
 		"(PieceLength, NumPieces, Length, file lengths and padding flags) through allocator+piece.NewPieces+CalculateBlocks in an rlimited subprocess. Non-trivial = got past bencode syntax in at least one entry point (accepted or a semantic error); distinct = such inputs."
@@ -406,9 +406,9 @@ func TestC06(t *testing.T) {
 	}
 	shapeLattice(emit) // simplest first
 	declenLattice(emit)
-	depths := []int{1, 10, 1000, 100000}
+	depths := []int{1, 10, 1000, 10000}
 	if thorough {
-		depths = append(depths, 1000000)
+		depths = []int{1, 10, 1000, 100000, 1000000}
 	}
 	if strings.Contains(dbgSkip, "deep") {
 		depths = []int{1, 10, 1000}
